@@ -98,7 +98,8 @@ from .db_model import *  # noqa
 
 def _iter_storage(ex, v, s, st):
     items = v.t["items"]
-    return l_len(items.t), items, (lambda j: Val(Item, l_at(items.t, j))), {}
+    # reading storage may fail at any row (C13): every loop over a storage has an exceptional edge 'ReadFault' at an arbitrary iteration
+    return l_len(items.t), items, (lambda j: Val(Item, l_at(items.t, j))), {"fallible": "ReadFault"}
 
 
 Exec.iter_handlers["Obj_Storage"] = _iter_storage
